@@ -334,6 +334,14 @@ func C05(p *an.Prog, r *an.Report) {
 					if !allowedParams[l.Param] {
 						bad = append(bad, "key derives from parameter "+l.String())
 					}
+					// a key object (crypto interface value) held by the receiver must be the identity's:
+					// reached through the KeysAndCert of the structure's Destination/RouterIdentity, not
+					// some other key-typed field of the structure (e.g. a LeaseSet's revocation key)
+					if l.Param == 0 && recvName != "OfflineSignature" && len(fn.Params) > 0 {
+						if why := keyPathNotIdentity(fn.Params[0].Type(), l.Path); why != "" {
+							bad = append(bad, "key "+l.String()+" "+why)
+						}
+					}
 				case an.LGlobal:
 					if g, ok := l.V.(*ssa.Global); ok && len(p.GlobalWrites(g)) > 0 {
 						bad = append(bad, "key derives from mutable package variable "+l.Name)
@@ -491,4 +499,52 @@ func isExportedFnKey(k string) bool {
 	i := strings.LastIndex(k, ".")
 	name := k[i+1:]
 	return name != "" && name[0] >= 'A' && name[0] <= 'Z'
+}
+
+
+// keyPathNotIdentity walks the access path from the receiver type. If the path ends in (or passes
+// through) a field whose type is a key interface of go-i2p/crypto, it must first pass through a
+// field of type keys_and_cert.KeysAndCert. Returns "" when acceptable.
+func keyPathNotIdentity(recv types.Type, path string) string {
+	t := an.Deref(recv)
+	sawKAC := false
+	for _, name := range strings.Split(strings.TrimPrefix(path, "."), ".") {
+		if name == "" || name == "*" {
+			continue
+		}
+		name = strings.TrimSuffix(name, "[]")
+		if _, nm := an.NamedOf(t); nm == "KeysAndCert" {
+			sawKAC = true
+		}
+		st, ok := an.Deref(t).Underlying().(*types.Struct)
+		if !ok {
+			return ""
+		}
+		var ft types.Type
+		for i := 0; i < st.NumFields(); i++ {
+			if st.Field(i).Name() == name {
+				ft = st.Field(i).Type()
+			}
+		}
+		if ft == nil {
+			return ""
+		}
+		if _, nm := an.NamedOf(an.Deref(ft)); nm == "KeysAndCert" {
+			sawKAC = true
+		}
+		if isCryptoKeyInterface(ft) && !sawKAC {
+			return "is a key-typed field of the structure outside its identity (KeysAndCert)"
+		}
+		t = ft
+	}
+	return ""
+}
+
+func isCryptoKeyInterface(t types.Type) bool {
+	pk, nm := an.NamedOf(t)
+	if !strings.HasPrefix(pk, "github.com/go-i2p/crypto") {
+		return false
+	}
+	_, isIface := t.Underlying().(*types.Interface)
+	return isIface && strings.Contains(nm, "Key")
 }
